@@ -228,6 +228,8 @@ class C02(runner.Check):
 		for _ in range(2):
 			s = r.randint(0, L - 3)
 			regions.append((s, r.randint(s + 3, L)))
+		if L >= 8:
+			regions.append((r.randint(0, 2), -r.randint(2, 3)))     # negative end other than -1
 		ops = []
 		for _ in range(r.randint(5, 30) if L < 60000 else r.randint(3, 6)):
 			kind = r.wchoice(["dinuc", "mono", "np_seed", "np_draw", "nb_seed", "nb_draw",
@@ -241,6 +243,7 @@ class C02(runner.Check):
 					op["rs"] = -op["rs"]        # RandomState rejects negative seeds
 				op["seed_type"] = r.wchoice(["int", "numpy.int64", "numpy.int32"], [5, 1, 1])
 				op["np_bounds"] = r.chance(0.2)
+				op["positional"] = r.chance(0.2)
 				op["verbose"] = r.chance(0.25)
 				if L <= 40 and r.chance(0.04):
 					op["n"] = r.randint(257, 520)          # more shuffles than any block size
@@ -474,7 +477,10 @@ class C02(runner.Check):
 							import contextlib, io as _io
 							with contextlib.redirect_stdout(_io.StringIO()), \
 									contextlib.redirect_stderr(_io.StringIO()):
-								box["Y"] = fn(X, start=s_, end=e_, n=n_, random_state=rs, **vkw)
+								if op.get("positional") and not vkw:
+									box["Y"] = fn(X, s_, e_, n_, rs)       # (X, start, end, n, random_state)
+								else:
+									box["Y"] = fn(X, start=s_, end=e_, n=n_, random_state=rs, **vkw)
 					except BaseException as ex:
 						box["exc"] = ex
 				if op.get("thread"):
